@@ -24,7 +24,7 @@ from vlib import nn
 RULE = ("cells = (configuration, null population or null law); every distinct ordering / every sequence of the cell is "
         "executed; a cell is non-trivial if the population is non-constant and some ordering gives q < 1; distinct = "
         "hash of (configuration, sorted population | law, n)")
-REQUIRED = ["cells:perm", "cells:perm_largeN_few_minority", "cells:iid", "cells:audit", "audit_orderings_run", "orderings_run", "sequences_run", "cells_where_test_can_reject",
+REQUIRED = ["cells:perm", "cells:perm_largeN_few_minority", "cells:iid", "cells:audit", "audit_orderings_run", "orderings_run", "sequences_run", "cells_where_test_can_reject", "cells_with_a_look_after_every_draw_on_one_buffer",
             "cells_boundary_mean"] + \
            [f"perm:{nn.label({'test': a, 'estim': b, 'bet': c})}" for a, b, c in nn.COMBOS
             if a not in ("kaplan_markov", "kaplan_wald")] + \
@@ -172,7 +172,8 @@ def run_shard(spec, rec):
             if n_distinct(pop) <= (2600 if spec["tier"] == "quick" else 35000):
                 break
         cfg["N"] = N
-        run_case({"kind": "perm", "cfg": cfg, "pop": sorted(pop), "stratum": st}, rec)
+        run_case({"kind": "perm", "cfg": cfg, "pop": sorted(pop), "stratum": st,
+                  "looks": n_distinct(pop) <= 800 and rng.random() < 0.2}, rec)
     # larger N where the orderings are still enumerable: a few minority values among N-k equal ones (N up to 32,
     # k <= 3: at most C(32,3) = 4960 distinct orderings), null mean exactly at or just below t, t up to 15/16
     for i in range(spec["perm_cells"] // 8):
@@ -211,7 +212,7 @@ def run_shard(spec, rec):
         atoms, ws = gen_law(rng, cfg["u"], cfg["t"])
         n = rng.randint(1, spec["iid_n"][1] if len(atoms) == 2 else spec["iid_n"][0])
         run_case({"kind": "iid", "cfg": cfg, "atoms": atoms, "weights": [[w.numerator, w.denominator] for w in ws],
-                  "n": n}, rec)
+                  "n": n, "looks": len(atoms) ** n <= 800 and rng.random() < 0.25}, rec)
     for i in range(spec.get("audit_cells", 0)):
         run_case(gen_audit_cell(rng, spec["audit_n"]), rec)
     for i in range(spec.get("mc_cells", 0)):
@@ -226,6 +227,25 @@ def run_shard(spec, rec):
             cfg["N"] = N
         run_case({"kind": "mc", "cfg": cfg, "pop": sorted(pop), "reps": 20000, "mcseed": rng.randrange(2 ** 31),
                   "stratum": st}, rec)
+
+
+def evaluate(rec, lab, obj, seq, looks):
+    """The smallest p-value an auditor sees on this sequence.  looks=False: one call on the whole sequence (overall value
+    and every history entry).  looks=True: the sample sits in ONE buffer and the test is asked again after every draw on
+    the growing prefix of that buffer, as an audit does round after round; the auditor stops at the first look with
+    p <= alpha, so the smallest over looks is what must be controlled (for a null population no prefix total exceeds
+    N t, so this equals the single-call value whenever calls are side-effect free and non-anticipating)."""
+    if not looks:
+        ok, res = rec.guard(f"c01.call:{lab}", obj.test, np.array(seq, dtype=float))
+        return (ok, q_of(res) if ok else None)
+    buf = np.array(seq, dtype=float)
+    q = 1.0
+    for k in range(1, len(seq) + 1):
+        ok, res = rec.guard(f"c01.call:{lab}", obj.test, buf[:k])
+        if not ok:
+            return False, None
+        q = min(q, q_of(res))
+    return True, q
 
 
 def q_of(res):
@@ -272,12 +292,14 @@ def run_case(case, rec):
         n_ord = 0
         with np.errstate(all="ignore"):
             for o in distinct_orderings(pop):
-                ok, res = rec.guard(f"c01.call:{lab}", obj.test, np.array(o, dtype=float))
+                ok, q = evaluate(rec, lab, obj, o, case.get("looks"))
                 if not ok:
                     return
                 n_ord += 1
-                qw.append((q_of(res), 1, o))
+                qw.append((q, 1, o))
         rec.count("orderings_run", n_ord)
+        if case.get("looks"):
+            rec.count("cells_with_a_look_after_every_draw_on_one_buffer")
         rec.count("cells:perm")
         rec.count(f"perm:{lab}")
         can_reject = any(q < 1 for q, _, _ in qw)
@@ -302,14 +324,16 @@ def run_case(case, rec):
         with np.errstate(all="ignore"):
             for idx in itertools.product(range(len(atoms)), repeat=n):
                 seq = [atoms[i] for i in idx]
-                ok, res = rec.guard(f"c01.call:{lab}", obj.test, np.array(seq, dtype=float))
+                ok, q = evaluate(rec, lab, obj, seq, case.get("looks"))
                 if not ok:
                     return
                 w = Fraction(1)
                 for i in idx:
                     w *= ws[i]
-                qw.append((q_of(res), w, seq))
+                qw.append((q, w, seq))
         rec.count("sequences_run", len(qw))
+        if case.get("looks"):
+            rec.count("cells_with_a_look_after_every_draw_on_one_buffer")
         rec.count("cells:iid")
         rec.count(f"iid:{lab}")
         can_reject = any(q < 1 for q, _, _ in qw)
